@@ -26,7 +26,8 @@ _owner = None
 
 def _new_scratch():
     global _SCRATCH, _owner
-    _SCRATCH = tempfile.mkdtemp(prefix="bpverif-")
+    parent = os.environ.get("VF_SCRATCH_PARENT")
+    _SCRATCH = tempfile.mkdtemp(prefix="bpverif-", dir=parent if parent and os.path.isdir(parent) else None)
     _owner = os.getpid()
     d = _SCRATCH
     pid = os.getpid()
